@@ -352,6 +352,7 @@ def parent_main(pid, tier, seed, workers=16, write_evidence=True):
 
         # --- confirm (replay once in a fresh interpreter) -----------------
         reported = []
+        unconfirmed = []
         seen_keys = set()
         rdir = os.path.join(VERIF, 'replays', pid)
         for v in unknown:
@@ -377,12 +378,23 @@ def parent_main(pid, tier, seed, workers=16, write_evidence=True):
             if cp.returncode == 0 and os.path.exists(outp):
                 ok = len(json.load(open(outp))['violations']) > 0
             if not ok:
-                print('HARNESS-ERROR violation did not reproduce on replay (nondeterminism in harness?)')
-                print('case:', path)
-                print(v['msg'][:1500])
-                print(cp.stdout[-1500:], cp.stderr[-1500:])
-                return 2
+                # keep looking: a defect that makes answers depend on the call history of a worker process shows up
+                # both as reproducible violations (history cases) and as ones that a fresh process cannot reproduce
+                unconfirmed.append((v, path, cp.stdout[-800:] + cp.stderr[-800:]))
+                seen_keys.discard(kd)
+                if len(unconfirmed) >= 6:
+                    break
+                continue
             reported.append((v, path))
+        if unconfirmed and not reported:
+            v, path, out = unconfirmed[0]
+            print('HARNESS-ERROR %d violation(s) did not reproduce on replay in a fresh interpreter (nondeterminism?) and none did' % len(unconfirmed))
+            print('case:', path)
+            print(v['msg'][:1500])
+            print(out)
+            return 2
+        for v, path, out in unconfirmed:
+            print('UNCONFIRMED (not reproduced in a fresh interpreter, not reported): %s' % v['msg'][:300])
 
         wall = time.time() - t0
         for i, vs in known_hits.items():
